@@ -50,6 +50,8 @@ type c1Stage struct {
 	in     string
 	out    string
 	fanOut bool
+	// passthrough: the stage hands on the message it consumed (the same object, like message.PassthroughHandler)
+	passthrough bool
 	pub    *ScriptedPublisher
 	calls  int
 	hFault map[int]int // call number -> kind
@@ -123,6 +125,13 @@ func c01Body(r *Run) {
 			addStage(l, fmt.Sprintf("s%db", l))
 		}
 	}
+	if mode == 0 {
+		for _, s := range stages {
+			if !s.fanOut && t.Chance(1, 4) {
+				s.passthrough = true
+			}
+		}
+	}
 	for _, f := range faults {
 		if f.stage >= len(stages) {
 			continue
@@ -155,7 +164,7 @@ func c01Body(r *Run) {
 		s := s
 		s.pub.Hook = func(c *PubCall) {
 			for _, m := range c.Msgs {
-				iv := consumedOf[m.UUID]
+				iv := consumedOf[s.name+"|"+m.UUID]
 				if iv == nil {
 					r.Fail("C01.R2", "a stage published a message no handler invocation produced", "%s published %s", s.name, m.UUID)
 					continue
@@ -189,6 +198,10 @@ func c01Body(r *Run) {
 				}
 				return nil, errC1
 			}
+			if s.passthrough {
+				consumedOf[s.name+"|"+m.UUID] = iv
+				return []*message.Message{m}, nil
+			}
 			var outs []*message.Message
 			branches := []string{""}
 			if s.fanOut {
@@ -197,7 +210,7 @@ func c01Body(r *Run) {
 			for _, b := range branches {
 				o := message.NewMessage(m.UUID+"/"+s.name+b, m.Payload)
 				o.Metadata.Set("src", m.Metadata.Get("src"))
-				consumedOf[o.UUID] = iv
+				consumedOf[s.name+"|"+o.UUID] = iv
 				outs = append(outs, o)
 			}
 			return outs, nil
@@ -233,7 +246,9 @@ func c01Body(r *Run) {
 			if s.level != level {
 				continue
 			}
-			if s.fanOut {
+			if s.passthrough {
+				walk(level+1, prefix)
+			} else if s.fanOut {
 				walk(level+1, prefix+"/"+s.name+"A")
 				walk(level+1, prefix+"/"+s.name+"B")
 			} else {
